@@ -170,6 +170,30 @@ def check(program: Program, run: Run) -> None:
                detail=f"largest-first={first_nonzero} sign-with-first={sign_first} smallest-every-nonzero={smallest_last} magnitude={abs_stored}", where=init.loc())
         if not ok:
             run.finding("C18/bookkeeping:Interval.__init__", "largest/smallest/sign bookkeeping of the constructor changed (largest must be the first non-zero label, smallest the last, sign taken with the first, magnitudes stored)", where=init.loc(), rule="R1")
+    # the literal must be a function of the object's own fields: no store to the instance, the class or a shared container
+    # while rendering (a memo keyed by the magnitudes would hand one interval the sign or template of another)
+    gsel = gs.params[0]
+    stores = []
+    for n in ast.walk(gs.node):
+        tg = []
+        if isinstance(n, ast.Assign):
+            tg = n.targets
+        elif isinstance(n, (ast.AugAssign, ast.AnnAssign)):
+            tg = [n.target]
+        for t in tg:
+            base = t
+            while isinstance(base, (ast.Subscript, ast.Attribute)):
+                if isinstance(base, ast.Attribute) and isinstance(base.value, ast.Name) and base.value.id in (gsel, "cls", iv.name):
+                    stores.append((ast.unparse(t), n.lineno))
+                    break
+                base = base.value
+        if isinstance(n, ast.Call) and isinstance(n.func, ast.Attribute) and n.func.attr in ("setdefault", "update", "append", "add", "__setitem__") \
+                and isinstance(n.func.value, ast.Attribute) and isinstance(n.func.value.value, ast.Name) and n.func.value.value.id in (gsel, "cls", iv.name):
+            stores.append((ast.unparse(n.func), n.lineno))
+    run.ob("C18/R1 Interval.get_sql writes no state", "Interval.get_sql", not stores, detail=str(stores[:3]), where=gs.loc())
+    for what, ln in stores[:3]:
+        run.finding(f"C18/render-state:Interval.get_sql:{what.split('[')[0].split('.')[-1]}", f"Interval.get_sql stores into `{what}` while rendering: a literal remembered across objects is returned for another interval "
+                    "whose sign, fields or dialect differ from the one it was computed for", where=f"{gs.module.relpath}:{ln}" if hasattr(gs.module, "relpath") else gs.loc(), rule="R1")
     # the template, the sign and the unit designator: folded from the symbolic rendering
     from ..symex import Hole, Lit, Obj, Str, Sym, Evaluator as _Ev
 
